@@ -17,6 +17,8 @@ sample outside the declared width makes `encode_with_fixed_block_size` return `E
                                 equal length with samples inside the width, EVERY oracle log that is `OEvent.Ok`, shaped as the encoder
                                 consumes it (`FramesLogOk`) and `LogFits`: the generated driver on the generated `MemSource` never
                                 panics - `Ok(stream)`, or `Err` from the argument checks (`StreamInfo::new`)
+  C03G_driver_mem_total_any     (d3, EVERY input) the same without the range hypothesis: `Ok`, or `Err` (argument checks, first block
+                                with a sample outside the width), never a panic
 -/
 import FlacVerif.Theorems.C03GenMem
 import FlacVerif.Theorems.C07Total
@@ -393,6 +395,131 @@ theorem C03G_driver_mem_total (exp : Bool) (c : Gen.Encoder) (hv : Gen.Encoder.v
       (by rw [hbl]; exact hnb) hmd fuel (by rw [hbl]; exact hf)
     rw [hg]
     simp
+
+/-! ### (d3) for EVERY input: in range or not -/
+
+theorem framesLogOk_prefix (cfg : SubCfg) : ∀ (l1 l2 : List (List (List Int))) (log : List OEvent),
+    FramesLogOk cfg (l1 ++ l2) log → FramesLogOk cfg l1 log
+  | [], _, _, _ => trivial
+  | _ :: bs, l2, _, h => ⟨h.1, framesLogOk_prefix cfg bs l2 _ h.2⟩
+
+theorem first_bad (P : Nat → Prop) : ∀ n, (∃ i, i < n ∧ P i) → ∃ j, j < n ∧ P j ∧ ∀ i, i < j → ¬ P i := by
+  intro n
+  induction n with
+  | zero => intro ⟨i, hi, _⟩; omega
+  | succ n ih =>
+    intro ⟨i, hi, hp⟩
+    by_cases hex : ∃ i, i < n ∧ P i
+    · obtain ⟨j, hj, h1, h2⟩ := ih hex
+      exact ⟨j, by omega, h1, h2⟩
+    · have hin : i = n := by
+        by_cases h : i < n
+        · exact absurd ⟨i, h, hp⟩ hex
+        · omega
+      subst hin
+      exact ⟨i, by omega, hp, fun k hk hpk => hex ⟨k, hk, hpk⟩⟩
+
+theorem mem_chunk (x : List Int) (bs : Nat) (hbs : 1 ≤ bs) (v : Int) (hv : v ∈ x) :
+    ∃ j, j < (x.length + bs - 1) / bs ∧ v ∈ (x.drop (j * bs)).take bs := by
+  rw [← Strict.chunks_all x bs hbs] at hv
+  simp only [List.mem_flatMap, List.mem_range] at hv
+  obtain ⟨j, hj, hm⟩ := hv
+  exact ⟨j, hj, hm⟩
+
+theorem blockOk_at (chans : List (List Int)) (ch bps bs total j : Nat) (hbs : 1 ≤ bs) (hcl : chans.length = ch) (hne : 1 ≤ chans.length)
+    (hlen : ∀ c ∈ chans, c.length = total) (hj : j < (total + bs - 1) / bs)
+    (hx : ∀ x ∈ blockAt chans bs j, ∀ v ∈ x, SubFrame.inRange bps v = true) : BlockOk ch bps bs (blockAt chans bs j) := by
+  have hjt := Strict.lt_ceil total bs j hbs hj
+  have hh := Strict.block_headD bs chans total hne hlen j
+  refine ⟨by simp [blockAt, hcl], ?_, by rw [hh]; omega, by rw [hh]; omega, hx⟩
+  intro c hc
+  simp only [blockAt, List.mem_map] at hc
+  obtain ⟨c', hc', rfl⟩ := hc
+  rw [hh, List.length_take, List.length_drop, hlen c' hc']
+
+/-- **(d3) no panic on the stream entry point, EVERY input**: as `C03G_driver_mem_total`, without the hypothesis that the samples lie
+inside the declared width: for every list of `i32`-valued channels (1..8, equal length `< 2^36`) the generated driver on the
+generated `MemSource` returns `Ok`, or `Err` (argument checks; the first block with a sample outside the width), never a panic —
+for a configuration accepted by `Encoder::verify` (single-thread) and EVERY oracle log that is `OEvent.Ok`, `FramesLogOk`, `LogFits`. -/
+theorem C03G_driver_mem_total_any (exp : Bool) (c : Gen.Encoder) (hv : Gen.Encoder.verify exp c = true) (featPar : Bool)
+    (par : Gen.Encoder → Gen.Source.MemSource → Nat → M (Option Gen.Writer.Stream))
+    (md5f : List Nat → List Nat) (s1 : Nat → List (List Int)) (s2 : Nat → List Int) (s3 : Nat → Gen.Coding.FrameBuf)
+    (chans : List (List Int)) (bps rate total : Nat) (log : List OEvent)
+    (hmt : c.multithread = false) (hst : ∀ n, C09Gen.StereoBuf (s3 n))
+    (hch : 1 ≤ chans.length ∧ chans.length ≤ 8) (hlen : ∀ x ∈ chans, x.length = total) (htot : total < 2 ^ 36)
+    (hb : 1 ≤ bps ∧ bps ≤ 24)
+    (hlogok : ∀ e ∈ log, e.Ok) (hshape : FramesLogOk (subCfgOf c.subframe_coding) (blocksOf c.block_size chans) log)
+    (hlog : C09Gen.LogFits log) (hnb : (total + c.block_size - 1) / c.block_size < 2 ^ 31)
+    (hmd : ∀ l, (md5f l).length = 16) :
+    ∀ fuel, (total + c.block_size - 1) / c.block_size < fuel →
+      encode_with_fixed_block_size featPar memOps par md5f s1 s2 s3 fuel c
+        (Gen.Source.MemSource.from_samples (Rfc.interleave chans) chans.length bps rate) c.block_size log ≠ none := by
+  intro fuel hf
+  obtain ⟨hmax, hfo, h32, h32767, _⟩ := verify_facts exp c hv
+  have h36 : (2 : Nat) ^ 36 = 68719476736 := by decide
+  have h40 : (2 : Nat) ^ 40 = 1099511627776 := by decide
+  have h16 : (2 : Nat) ^ 16 = 65536 := by decide
+  have h31 : (2 : Nat) ^ 31 = 2147483648 := by decide
+  by_cases hex : ∃ i, i < (total + c.block_size - 1) / c.block_size ∧
+      ∃ x ∈ blockAt chans c.block_size i, ∃ v ∈ x, SubFrame.inRange bps v = false
+  · -- a first block with a sample outside the width
+    obtain ⟨j0, hj0, ⟨xb, hxb, vb, hvb, hvr⟩, hfirst⟩ := first_bad _ _ hex
+    have hgood : ∀ i, i < j0 → ∀ x ∈ blockAt chans c.block_size i, ∀ v ∈ x, SubFrame.inRange bps v = true := by
+      intro i hi x hx v hvx
+      cases hr : SubFrame.inRange bps v with
+      | true => rfl
+      | false => exact absurd ⟨x, hx, v, hvx, hr⟩ (hfirst i hi)
+    have hbad : ∃ cc, cc < chans.length ∧ ∃ v ∈ (blockAt chans c.block_size j0).getD cc [], SubFrame.inRange bps v = false := by
+      obtain ⟨cc, hcc, hget⟩ := List.getElem_of_mem hxb
+      refine ⟨cc, by simpa [blockAt] using hcc, vb, ?_, hvr⟩
+      rw [List.getD_eq_getElem?_getD, List.getElem?_eq_getElem hcc, Option.getD_some, hget]
+      exact hvb
+    cases hn : FlacVerif.StreamInfo.new rate chans.length bps with
+    | none =>
+      have hargs : encodeStreamArgsOk c.block_size
+          (memOps.channels (Gen.Source.MemSource.from_samples (Rfc.interleave chans) chans.length bps rate))
+          (memOps.bits_per_sample (Gen.Source.MemSource.from_samples (Rfc.interleave chans) chans.length bps rate))
+          (memOps.sample_rate (Gen.Source.MemSource.from_samples (Rfc.interleave chans) chans.length bps rate)) = false := by
+        show encodeStreamArgsOk c.block_size chans.length bps rate = false
+        simp [encodeStreamArgsOk, hn]
+      rw [C03G_driver_args memOps featPar par md5f s1 s2 s3 fuel c _ c.block_size log hmt hargs]
+      simp
+    | some i0 =>
+      have hfb : FlacVerif.FrameBuf.withSize chans.length c.block_size =
+          some ⟨List.replicate (c.block_size * chans.length) 0, c.block_size, chans.length, 0⟩ := by
+        unfold FlacVerif.FrameBuf.withSize
+        rw [if_pos ⟨hch.1, hch.2, h32, h32767⟩]
+      -- the model's frame loop on the good prefix
+      have hsplit : blocksOf c.block_size chans = (List.range' 0 j0).map (blockAt chans c.block_size) ++
+          (List.range' j0 ((total + c.block_size - 1) / c.block_size - j0)).map (blockAt chans c.block_size) := by
+        rw [Strict.blocksOf_eq c.block_size chans total hch.1 hlen, List.range_eq_range', ← List.map_append]
+        congr 1
+        have := List.range'_append (s := 0) (m := j0) (n := (total + c.block_size - 1) / c.block_size - j0) (step := 1)
+        simp only [Nat.one_mul, Nat.zero_add] at this
+        rw [this]; congr 1; omega
+      rw [hsplit] at hshape
+      obtain ⟨fs, henc, _⟩ := encodeFrames_total (subCfgOf c.subframe_coding) (stereoCfgOf c.stereo_coding) bps rate chans.length
+        c.block_size hch (by omega) hb hmax ((List.range' 0 j0).map (blockAt chans c.block_size)) 0 log (by
+          intro b hbm
+          simp only [List.mem_map, List.mem_range'_1] at hbm
+          obtain ⟨i, ⟨_, hi⟩, rfl⟩ := hbm
+          exact blockOk_at chans chans.length bps c.block_size total i (by omega) rfl hch.1 hlen (by omega) (hgood i (by omega)))
+        (by simp; omega) hlogok (framesLogOk_prefix _ _ _ _ hshape)
+      rw [C03G_driver_mem_err featPar par md5f s1 s2 s3 c chans chans.length bps rate c.block_size total j0 log _ i0 _ fs hmt hn hfb
+        hst hb (by simpa [subCfgOf] using hmax) (by simp [subCfgOf] at hfo; omega) rfl hlen (by omega) hj0 (by omega) hgood hbad henc
+        hlog hlogok fuel (by omega)]
+      simp
+  · -- every sample is inside the width
+    have hx : ∀ x ∈ chans, ∀ v ∈ x, SubFrame.inRange bps v = true := by
+      intro x hx v hvx
+      cases hr : SubFrame.inRange bps v with
+      | true => rfl
+      | false =>
+        obtain ⟨j, hj, hm⟩ := mem_chunk x c.block_size (by omega) v hvx
+        rw [hlen x hx] at hj
+        exact absurd ⟨j, hj, (x.drop (j * c.block_size)).take c.block_size, List.mem_map.2 ⟨x, hx, rfl⟩, v, hm, hr⟩ hex
+    exact C03G_driver_mem_total exp c hv featPar par md5f s1 s2 s3 chans bps rate total log hmt hst hch hlen htot hb hx hlogok hshape
+      hlog hnb hmd fuel hf
 
 end C03GenErr
 end FlacVerif
